@@ -9,7 +9,7 @@
    correspondence run of every check.  The rounding clause is FALSE on the pinned code outside precision 0, in four
    regimes (C29_round_*_refuted, each replayed on the implementation and recorded in known_findings/C29.json); what is
    proved about it is the exact behaviour at precision 0 and the exact (sign, mantissa, exponent) semantics of
-   f64::round / ceil / floor.  abs panics at i64::MIN (C29_abs_min_refuted).
+   f64::round / ceil / floor.  abs wraps at i64::MIN (C29_abs_min_wraps; a panic before /repo b0e107f).
 
    Full statement of the rounding clause, NOT provable (refuted below):
      forall pow10 k x p, pow10_faithful p (pow10 p) = true -> f_is_finite x = true ->
@@ -25,17 +25,14 @@ Local Open Scope Z_scope.
 
 (* ---------- abs ---------- *)
 
-(* every i64 except the minimum: abs is the mathematical absolute value, which is again an i64 (and is what
-   wrapping_abs returns) *)
-Theorem C29_abs : forall z : Z, ConvRes.in_i64 z = true -> z <> i64_min ->
-  abs_fn (VInt z) = ROk (VInt (Z.abs z))
-  /\ ConvRes.in_i64 (Z.abs z) = true /\ 0 <= Z.abs z /\ (Z.abs z = z \/ Z.abs z = - z)
-  /\ wrapping_abs z = Z.abs z.
-Proof.
-  intros z Hz Hm. split; [apply abs_int; exact Hm|].
-  destruct (abs_in_range z Hz Hm) as (A & B & C). repeat split; auto.
-  rewrite (wrapping_abs_spec z Hz). apply Z.eqb_neq in Hm. rewrite Hm. reflexivity.
-Qed.
+(* EVERY i64: abs returns wrap64 |z|, an i64; that is |z| itself except at the minimum integer, which wraps to itself
+   ("integers wrap only at the minimum integer") *)
+Theorem C29_abs : forall z : Z, ConvRes.in_i64 z = true ->
+  abs_fn (VInt z) = ROk (VInt (wrap64 (Z.abs z)))
+  /\ ConvRes.in_i64 (wrap64 (Z.abs z)) = true
+  /\ (z <> i64_min -> wrap64 (Z.abs z) = Z.abs z /\ 0 <= Z.abs z)
+  /\ (z = i64_min -> wrap64 (Z.abs z) = i64_min).
+Proof. exact abs_total. Qed.
 Print Assumptions C29_abs.
 
 (* floats: the sign is cleared and nothing else changes (zeros and infinities included) *)
@@ -50,13 +47,11 @@ Theorem C29_abs_float : forall f : spec_float, f_is_nan f = false ->
 Proof. exact abs_float. Qed.
 Print Assumptions C29_abs_float.
 
-(* KNOWN FINDING C29-abs-min: at the minimum integer the property asks for the wrapped value (the minimum itself);
-   i64::abs panics in a build with overflow checks *)
-Theorem C29_abs_min_refuted :
-  wrapping_abs i64_min = i64_min /\ abs_fn (VInt i64_min) = RPanic
-  /\ exists z, ConvRes.in_i64 z = true /\ abs_fn (VInt z) <> ROk (VInt (wrapping_abs z)).
-Proof. split; [reflexivity|]. split; [reflexivity|]. exact abs_min_refuted. Qed.
-Print Assumptions C29_abs_min_refuted.
+(* FIXED finding C29-abs-min (/repo b0e107f, i.wrapping_abs()): the former witness -- abs(i64::MIN) panicked with
+   "attempt to negate with overflow" -- now wraps to the minimum integer, as the property asks *)
+Theorem C29_abs_min_wraps : abs_fn (VInt i64_min) = ROk (VInt i64_min) /\ wrapping_abs i64_min = i64_min.
+Proof. split; reflexivity. Qed.
+Print Assumptions C29_abs_min_wraps.
 
 (* ---------- mod ---------- *)
 
